@@ -206,6 +206,7 @@ def table_agrees(s):
 # part 2: interfaces
 
 KINDS = ["ann", "abs", "fn", "ds", "const", "optd"]
+KINDS_X = KINDS + ["absd", "dsd"]  # members declared with a dispatch of their own: the interface's dispatch replaces it
 FORMS = ["value", "option", "dataset", "function"]
 
 
@@ -226,6 +227,21 @@ def build_interface(shape, name="I", dep=False):
 
             f.__name__ = m
             ns[m] = abstractdataset(f)
+        elif k == "absd":
+
+            def f():
+                pass
+
+            f.__name__ = m
+            ns[m] = abstractdataset(f, dispatch="OWN_KEY")
+        elif k == "dsd":
+
+            def f(m=m):
+                return ("dflt-ds", m)
+
+            f.__name__ = m
+            ns[m] = dataset(f, dispatch=Option("OWN_KEY", "own"))
+            defaults[m] = ("dflt-ds", m)
         elif k == "fn":
             if dep and prev is not None and not isinstance(prev, str):
 
@@ -303,7 +319,7 @@ def check_interface(shape, res):
     fails = []
     n = len(shape)
     members = [f"m{i}" for i in range(n)]
-    abstract = {f"m{i}" for i, k in enumerate(shape) if k in ("ann", "abs")}
+    abstract = {f"m{i}" for i, k in enumerate(shape) if k in ("ann", "abs", "absd")}
 
     def fail(kind, d, case):
         if not any(f["sig"].startswith(f"C07|iface|{kind}|") for f in fails):
@@ -358,7 +374,8 @@ def check_interface(shape, res):
                     aliases = alias if isinstance(alias, list) else [alias]
                     for al in aliases:
                         for m in members:
-                            got = observe(None, lambda: getattr(iface, m).evaluate({"IMPL": al}))
+                            # a member's own dispatch key is irrelevant once it belongs to the interface
+                            got = observe(None, lambda: getattr(iface, m).evaluate({"IMPL": al, "OWN_KEY": "base"}))
                             if m in expect:
                                 want = expect[m]
                             elif m in defaults:
@@ -461,15 +478,22 @@ def check_dependent(res):
 # -------------------------------------------------------------------------
 
 
+def _shapes():
+    shapes = []
+    for n in (1, 2, 3):
+        shapes.extend(itertools.product(KINDS, repeat=n))
+    for n in (1, 2):
+        shapes.extend(s for s in itertools.product(KINDS_X, repeat=n) if any(k in ("absd", "dsd") for k in s))
+    return shapes
+
+
 def cases(tier, seed):
     out = []
     depth = 4 if tier == "quick" else 5
     for vi in range(len(VARIANTS)):
         for first in range(len(OPS)):
             out.append(("bfs", vi, first, depth))
-    shapes = []
-    for n in (1, 2, 3):
-        shapes.extend(itertools.product(KINDS, repeat=n))
+    shapes = _shapes()
     for a in range(0, len(shapes), 12):
         out.append(("ifaces", a, min(len(shapes), a + 12)))
     mshapes = []
@@ -530,9 +554,7 @@ def run_case(case):
             res["samples"].append({"variant": list(variant), "history": [list(map(str, o)) for o in [OPS[0], OPS[8], OPS[4], OPS[8], OPS[9]]]})
         return res
     if case[0] == "ifaces":
-        shapes = []
-        for n in (1, 2, 3):
-            shapes.extend(itertools.product(KINDS, repeat=n))
+        shapes = _shapes()
         for shape in shapes[case[1] : case[2]]:
             res["failures"].extend(check_interface(shape, res))
         res["states"] = 1
